@@ -161,6 +161,10 @@ def ite(c, a, b):
         b = b.as_int()
     ea, la, ha = _parts(a)
     eb, lb, hb = _parts(b)
+    if type(a) is SymInt and type(b) is SymInt and ea.eq(-eb) and c.e.eq(eb < z3.BitVecVal(0, ENG.W)):
+        # ite(b < 0, -b, b) is |b|: the interval is that of the absolute value (exact refinement)
+        lo = 0 if lb <= 0 <= hb else min(abs(lb), abs(hb))
+        return _mk(z3.If(c.e, ea, eb), lo, max(abs(lb), abs(hb)))
     return SymInt(z3.If(c.e, ea, eb), min(la, lb), max(ha, hb))
 
 
@@ -490,7 +494,22 @@ class SymInt:
         return s._cmp(o, lambda a, b: a >= b,
                       lambda al, ah, bl, bh: True if al >= bh else (False if ah < bl else None))
 
+    def _bitlen_is(s, c):
+        """s = v.bit_length(): the test s == c for a constant c, stated on v (exact):
+        c == 0: v == 0;  c > 0: 2**(c-1) <= |v| < 2**c"""
+        v = s.tag[1]
+        if c < 0 or c > s.hi:
+            return False
+        if c == 0:
+            return v == 0
+        a = abs(v)
+        if _is_int(a):
+            return a.bit_length() == c
+        return sym_and(a >= (1 << (c - 1)), a < (1 << c))
+
     def __eq__(s, o):
+        if type(o) is int and type(s.tag) is tuple and s.tag[0] == "bitlen":
+            return s._bitlen_is(o)
         try:
             p = _parts(o)
         except EngineBound:
@@ -502,6 +521,8 @@ class SymInt:
         return SymBool(s.e == p[0])
 
     def __ne__(s, o):
+        if type(o) is int and type(s.tag) is tuple and s.tag[0] == "bitlen":
+            return sym_not(s._bitlen_is(o))
         try:
             p = _parts(o)
         except EngineBound:
@@ -564,7 +585,10 @@ class SymInt:
             sh >>= 1
         n = z3.If(x != 0, n + 1, n)
         m = max(abs(s.lo), abs(s.hi))
-        return _mk(n, 0, m.bit_length())
+        r = _mk(n, 0, m.bit_length())
+        if type(r) is SymInt:
+            r.tag = ("bitlen", s)     # lets `v.bit_length() == constant` be stated as a range test on v
+        return r
 
     def to_bytes(s, length=1, byteorder="big", *, signed=False):
         from .seq import SymBytes
